@@ -132,11 +132,12 @@ def gen_data(rng, scale):
     for n in lengths(rng, scale(10, 60), nmax):
         for rep in range(scale(3, 8) if n <= 8 else 1):
             fc = rng.choice(FCLASSES)
-            ps.append(P("eckhardt", f"len{min(n, 9)}/{fc}", flow=A(fvals(rng, n, fc)),
-                        thresh=rng.choice([0.95, 0.0, 1.0, -0.1, 1.1, "nan"]),
+            ok = rng.random() < 0.6      # options inside their documented ranges
+            ps.append(P("eckhardt", f"len{min(n, 9)}/{fc}/{'opt_in' if ok else 'opt_any'}", flow=A(fvals(rng, n, fc)),
+                        thresh=rng.choice([0.95, 0.0, 1.0] if ok else [0.95, 0.0, 1.0, -0.1, 1.1, "nan"]),
                         tau=rng.choice([20, 0, -1, "nan", "inf", 1e-300, 1e300]),
-                        BFI_max=rng.choice([0.8, 0.0, 1.0, 1.5, "nan"]),
-                        timestep_type=rng.choice([0, 1, 1, 2, -1])))
+                        BFI_max=rng.choice([0.8, 0.0, 1.0] if ok else [0.8, 0.0, 1.0, 1.5, "nan"]),
+                        timestep_type=rng.choice([0, 1] if ok else [0, 1, 1, 2, -1])))
 
     # var2h: irregular stamps (seconds), series shorter than a period, decreasing / duplicated stamps, long spans
     for n in list(range(0, 9)) + [rng.randint(9, scale(60, 2000)) for _ in range(scale(8, 40))]:
@@ -151,10 +152,12 @@ def gen_data(rng, scale):
                         "gappy": rng.choice([60, 600, 86400 * 7]), "sparse": rng.randint(3600, 40000)}[kind]
                 cur += step
             fc = rng.choice(["fin", "fin", "nan", "neg", "inf", "huge", "zero"])
-            ps.append(P("var2h", f"len{min(n, 9)}/{kind}/{fc}", secs=secs, values=A(fvals(rng, n, fc)),
-                        nbsec=rng.choice([3600, 3600, 1800, 60, 0, -3600]),
-                        rainfall=rng.choice([False, True, 2, -1]),
-                        maxgapsec=rng.choice([5 * 86400, 3600, I32MAX, 3599, 0]),
+            ok = rng.random() < 0.75     # options inside their documented ranges
+            ps.append(P("var2h", f"len{min(n, 9)}/{kind}/{fc}/{'opt_in' if ok else 'opt_any'}", secs=secs,
+                        values=A(fvals(rng, n, fc)),
+                        nbsec=rng.choice([3600, 1800] if ok else [3600, 1800, 60, 0, -3600]),
+                        rainfall=rng.choice([False, True] if ok else [False, True, 2, -1]),
+                        maxgapsec=rng.choice([5 * 86400, 3600, I32MAX] if ok else [5 * 86400, 3600, I32MAX, 3599, 0]),
                         unit=rng.choice(["ns", "ns", "us", "ms", "s"])))
     # period index i*nbsec_per_period beyond 32 bits: two stamps 70 / 40 years apart
     ps.append(P("var2h", "span70y/3600", secs=[0, 70 * 365 * 86400], values=A([1.0, 2.0]), nbsec=3600, maxgapsec=I32MAX))
@@ -528,7 +531,8 @@ def gen_gis(rng, scale):
         fd, fk = flowdir(rng, maxdim=maxdim)
         ntot = fd["nrows"] * fd["ncols"]
         nprint = rng.choice([0, 0, 1, -1, 100, 3, I64MAX, I64MIN])
-        maxcells = rng.choice([-1, -1, 0, 1, 2, ntot, -5, 2 ** 62])
+        # (a cap of 2**62 on a cyclic grid is 2**62 steps by specification: caps stay small enough to finish)
+        maxcells = rng.choice([-1, -1, 0, 1, 2, ntot, -5, 10 ** 4])
         fc = rng.choice([None, "fin", "nan", "inf", "huge", "neg"])
         field = None
         if fc is not None:
